@@ -1351,6 +1351,26 @@ def seq_method(engine, st, method, args, dest_ty):
             st.ended = 'panic'
             raise _PathEnds()
         return s.items.pop(i)
+    if method == 'drain' and isinstance(s, VecV):
+        rng = deref_all(args[1])
+        n_ = len(s.items)
+        if isinstance(rng, Agg) and rng.ty.endswith('RangeFrom'):
+            lo, hi = rng.fields[0].concrete(), n_
+        elif isinstance(rng, Agg) and rng.ty.endswith('RangeTo'):
+            lo, hi = 0, rng.fields[0].concrete()
+        elif isinstance(rng, Agg) and rng.fields and len(rng.fields) == 2:
+            lo, hi = rng.fields[0].concrete(), rng.fields[1].concrete()
+        else:
+            lo, hi = 0, n_          # RangeFull
+        if lo is None or hi is None:
+            raise Inconclusive('Vec::drain with symbolic bounds')
+        if lo > hi or hi > n_:
+            st.panic_if(z3.BoolVal(True), 'Vec::drain range out of bounds')
+            st.ended = 'panic'
+            raise _PathEnds()
+        taken = s.items[lo:hi]
+        del s.items[lo:hi]
+        return IterV(taken)
     if method == 'retain' and isinstance(s, VecV):
         clo = args[1]
         holder = RefV(Cell(clo), 0, True) if not isinstance(clo, RefV) else clo
